@@ -1,6 +1,6 @@
 SPECIFICATION Spec
 CONSTANT Mode = "order"
-CONSTANT Triples = TRUE
+CONSTANT Triples = FALSE
 INVARIANT ArithLaws
 INVARIANT OrderLaws
 CHECK_DEADLOCK FALSE
